@@ -13,6 +13,8 @@ derives its schema from its declaration, and the value-level laws the round trip
      the verdict and the stored value; the harness executes `cs[name] = value` once per case on the real code).
 
 What is transcribed from the code
+  EffDecl(s)          armi/apps.py  App.getSettings: a plugin's settings.Option / settings.Default for a setting another plugin
+                      defines is merged into the declaration, whichever of the two plugins is registered first.
   Effective(s)        armi/settings/setting.py  Setting._setSchema: the schema passed to the constructor if any; else
                       In(options) if options are given *and* enforced; else [Coerce(type(default[0]))] for a non-empty
                       list default; else Coerce(type(default)).   (Setting.addOptions re-derives it.)
@@ -264,7 +266,16 @@ Fn(sc, x) ==
       [] OTHER -> Unm
 
 \* ---------------------------------------------------------------------------------------------------- a Setting
-\* s = [name, cls, default, options, enforced, hasCustom, custom, old, extra]
+\* s = [name, cls, default, options, enforced, hasCustom, custom, old, extra, mods]
+\* A declaration as its plugin wrote it, plus the modifiers other plugins contribute for it (settings.Option / settings.Default,
+\* in arrival order).  apps.App.getSettings merges them whichever arrives first -- the setting (modifiers applied directly:
+\* addOption, changeDefault) or the modifiers (kept in a cache until the setting arrives, options first, then the default).
+\* Either way the outcome is EffDecl: the options extended by the Option values, the default replaced by the last Default.
+EffDecl(s) ==
+    LET om == SelectSeq(s.mods, LAMBDA m : m.kind = "option")
+        dm == SelectSeq(s.mods, LAMBDA m : m.kind = "default") IN
+    [s EXCEPT !.options = s.options \o [j \in 1..Len(om) |-> om[j].v],
+              !.default = IF Len(dm) > 0 THEN dm[Len(dm)].v ELSE s.default]
 PyType(x) == IF x.t = "none" THEN "NoneType" ELSE IF x.t = "ofloat" THEN "float" ELSE x.t
 Effective(s) ==                                                     \* Setting._setSchema
     IF s.hasCustom THEN s.custom
